@@ -53,7 +53,8 @@ class MemoryKeyStorage(PublicKeyStorage):
         return self._cache.get(Name.to_bytes(name), None)
 
     def save(self, name: FormalName, key_bits: bytes):
-        self._cache[Name.to_bytes(name)] = key_bits
+        # Keep the key bits themselves: they may be a view into a receive buffer that is reused for the next packet
+        self._cache[Name.to_bytes(name)] = bytes(key_bits)
 
 
 class CascadeChecker:
